@@ -19,7 +19,17 @@ import hugr.model as model
 from hugr._serialization.ops import OpType as SerialOp
 from hugr._serialization.serial_hugr import SerialHugr
 from hugr.exceptions import ParentBeforeChild
-from hugr.ops import Call, Const, Custom, DataflowOp, Module, Op
+from hugr.ops import (
+    Call,
+    Const,
+    Custom,
+    DataflowOp,
+    IncompleteOp,
+    LoadConst,
+    LoadFunc,
+    Module,
+    Op,
+)
 from hugr.tys import Kind, Type, ValueKind
 from hugr.utils import BiMap
 from hugr.val import Value
@@ -61,6 +71,26 @@ class NodeData:
         o = self.op._to_serial(self.parent if self.parent else node)
 
         return SerialOp(root=o)  # type: ignore[arg-type]
+
+
+def _order_port_offset(op: Op, direction: Direction) -> PortOffset | None:
+    """The serialized offset of the state order port of a dataflow operation:
+    the first port after the value ports and the static input port. None for
+    operations without a state order port, or if the operation is incomplete.
+    """
+    try:
+        if isinstance(op, Call):
+            sig = op.instantiation
+        elif isinstance(op, DataflowOp):
+            sig = op.outer_signature()
+        else:
+            return None
+    except IncompleteOp:
+        return None
+    if direction == Direction.INCOMING:
+        static = isinstance(op, Call | LoadConst | LoadFunc)
+        return len(sig.input) + int(static)
+    return len(sig.output)
 
 
 _SO = _SubPort[OutPort]
@@ -726,7 +756,11 @@ class Hugr(Mapping[Node, NodeData], Generic[OpVarCov]):
         # not counted in the number of ports.
         if p.offset < 0:
             assert p.offset == -1, "Only order edges are allowed with offset < 0"
-            offset = self.num_ports(p.node, p.direction)
+            order_offset = _order_port_offset(self[p.node].op, p.direction)
+            if order_offset is None:
+                offset = self.num_ports(p.node, p.direction)
+            else:
+                offset = order_offset
         else:
             offset = p.offset
 
@@ -773,12 +807,22 @@ class Hugr(Mapping[Node, NodeData], Generic[OpVarCov]):
             )
             assert n.idx == idx, "Nodes should be added contiguously"
 
+        def load_offset(node: NodeIdx, offset: PortOffset | None, d: Direction) -> int:
+            # A missing offset, or the offset of the first port after the value
+            # and static ports, denotes the state order port of a dataflow node.
+            order_offset = _order_port_offset(hugr[Node(node)].op, d)
+            if offset is None:
+                return -1 if order_offset is not None else 0
+            return -1 if offset == order_offset else offset
+
         for (src_node, src_offset), (dst_node, dst_offset) in serial.edges:
-            if src_offset is None or dst_offset is None:
-                continue
             hugr.add_link(
-                Node(src_node, _metadata=get_meta(src_node)).out(src_offset),
-                Node(dst_node, _metadata=get_meta(dst_node)).inp(dst_offset),
+                Node(src_node, _metadata=get_meta(src_node)).out(
+                    load_offset(src_node, src_offset, Direction.OUTGOING)
+                ),
+                Node(dst_node, _metadata=get_meta(dst_node)).inp(
+                    load_offset(dst_node, dst_offset, Direction.INCOMING)
+                ),
             )
 
         return hugr
